@@ -315,6 +315,9 @@ def obligations(tier):
     for s in STRUCTS:
         obs.append(Obligation(f"neutral-termini-{s}", table_neutral, dict(residues=res if s == "tripeptide" else res[:2], structs=[s]), kind="table", group="neutral-termini"))
     obs.append(Obligation("propka-text-keep-chain-n3", h_propka_text, dict(n=3), group="propka-text", time_cap=900, max_paths=100000))
+    # --keep-chain changes the chain column only: the atom order does not depend on it (C08 twin/chain-order harness)
+    for kc in (False, True):
+        obs.append(Obligation(f"atom-order-{'kc' if kc else 'nokc'}", c08.h_atom_list_twins, dict(n=3, kc=kc), group="atom-order", time_cap=1200, max_paths=100000))
     return obs
 
 
